@@ -192,7 +192,8 @@ theorem set_correct (G : String → Prop) (b : Bool) (fuel : Nat) (HA : HintAtM 
     (hsem : eval n cur env (.form [.sym "set", .sym x, ve] pp) s = .ok (v, env') s')
     (hE : EnvS G c.scopes env s.boxes.size sc.ra)
     (hmaxx : ∀ dest rx u l, lk c.scopes x = some (dest, u, l) → dest.k = .loc rx → rx ≤ sc.ra.max)
-    (hside : ∀ (q : Pos) (dest r : JSlot) (c2 : CState), cValue fuel { hint := some dest } ve { c with cur := q } = some (r, c2) →
+    (hside : ∀ (q : Pos) (dest r : JSlot) (c2 : CState), (∃ u l, lk c.scopes x = some (dest, u, l)) →
+      cValue fuel { hint := some dest } ve { c with cur := q } = some (r, c2) →
       (∀ u l, lk c.scopes x = some (dest, u, l) → ∃ u2 l2, lk c2.scopes x = some (dest, u2, l2)) ∧ MutInj c2.scopes)
     (hsame : ∀ a, lookupEnv env x = some a → lookupEnv env' x = some a)
     (hBI : ∀ (n2 : Nat) (pos : Pos) (s1 : SS), eval n2 pos env ve s = .ok (v, env') s1 → BoxInj env' s1.boxes.size) :
@@ -220,7 +221,7 @@ theorem set_correct (G : String → Prop) (b : Bool) (fuel : Nat) (HA : HintAtM 
       obtain ⟨r, c2, hv, c3, hcp, hr, hc3⟩ := hrest
       subst hr hc3
       -- `resolve` leaves the state alone (a local found without capture, or a global constant)
-      have hc1 : c1 = { c with cur := q } := by
+      have hc1 : c1 = { c with cur := q } ∧ ∃ u l, lk c.scopes x = some (dest, u, l) := by
         cases hlk : lk c.scopes x with
         | none =>
           rw [resolve_global _ x (by rw [lookupSlot_lk]; exact hlk)] at hres
@@ -241,9 +242,10 @@ theorem set_correct (G : String → Prop) (b : Bool) (fuel : Nat) (HA : HintAtM 
           subst hl1
           rw [resolve_local _ x sl u (by rw [lookupSlot_lk]; exact hlk) hcf] at hres
           simp only [Option.some.injEq, Prod.mk.injEq] at hres
-          exact hres.2.symm
+          exact ⟨hres.2.symm, u, true, by rw [← hres.1]⟩
+      obtain ⟨hc1, hlkx⟩ := hc1
       subst hc1
-      obtain ⟨hx2, hMI⟩ := hside q dest r c2 hv
+      obtain ⟨hx2, hMI⟩ := hside q dest r c2 hlkx hv
       obtain ⟨rx, H⟩ := set_core p f0 rest V P G b fuel HA x ve hTv { c with cur := q } c2 c3 dest r sc rs pool ps n2 (posOf cur pp) env env' s s1 v a
         hs hp hl htop hm hres hmut hv hcp hev hla (hsame a hla) hE (hmaxx dest) hx2 hMI (hBI n2 (posOf cur pp) s1 hev)
       exact ⟨rx, SetOK.recur p f0 rest V P (q := q) H⟩
